@@ -149,6 +149,8 @@ where
     iter: LineColIterator<io::Bytes<R>>,
     /// Temporary storage of peeked byte.
     ch: Option<u8>,
+    /// Position of the iterator before it produced the peeked byte.
+    pos_before_peek: Position,
 }
 
 /// S-expression input source that reads from a slice of bytes.
@@ -184,6 +186,7 @@ where
         IoRead {
             iter: LineColIterator::new(reader.bytes()),
             ch: None,
+            pos_before_peek: Position { line: 1, column: 0 },
         }
     }
 }
@@ -263,14 +266,21 @@ where
     fn peek(&mut self) -> Result<Option<u8>> {
         match self.ch {
             Some(ch) => Ok(Some(ch)),
-            None => match self.iter.next() {
-                Some(Err(err)) => Err(Error::io(err)),
-                Some(Ok(ch)) => {
-                    self.ch = Some(ch);
-                    Ok(self.ch)
+            None => {
+                let pos = Position {
+                    line: self.iter.line(),
+                    column: self.iter.col(),
+                };
+                match self.iter.next() {
+                    Some(Err(err)) => Err(Error::io(err)),
+                    Some(Ok(ch)) => {
+                        self.ch = Some(ch);
+                        self.pos_before_peek = pos;
+                        Ok(self.ch)
+                    }
+                    None => Ok(None),
                 }
-                None => Ok(None),
-            },
+            }
         }
     }
 
@@ -280,16 +290,24 @@ where
     }
 
     fn position(&self) -> Position {
-        Position {
-            line: self.iter.line(),
-            column: self.iter.col(),
+        // A peeked byte has been pulled out of the iterator, but not consumed
+        // yet: it does not count for the position of the most recent `next()`.
+        match self.ch {
+            Some(_) => self.pos_before_peek,
+            None => Position {
+                line: self.iter.line(),
+                column: self.iter.col(),
+            },
         }
     }
 
     fn peek_position(&self) -> Position {
         // The LineColIterator updates its position during peek() so it has the
         // right one here.
-        self.position()
+        Position {
+            line: self.iter.line(),
+            column: self.iter.col(),
+        }
     }
 
     fn byte_offset(&self) -> usize {
